@@ -28,6 +28,7 @@ type Prober struct {
 	// earlier start (a stopped checker may still complete a run or two) are dropped, and
 	// every start begins with fresh failure counters
 	generation atomic.Int64
+	cbMtx      sync.Mutex // held while a result is examined and delivered
 }
 
 func New(name string, probe Probe, onCheckEnd func(bool, bool, string)) (*Prober, error) {
@@ -103,7 +104,16 @@ func (p *Prober) Stop() {
 	}
 }
 
+// WaitIdle returns when no result is being delivered. After Stop and WaitIdle the callback
+// does not run for a check of the stopped period anymore. Not to be called by the callback.
+func (p *Prober) WaitIdle() {
+	p.cbMtx.Lock()
+	defer p.cbMtx.Unlock()
+}
+
 func (p *Prober) healthCheckCompleted(generation int64, state *health.State) {
+	p.cbMtx.Lock()
+	defer p.cbMtx.Unlock()
 	if p.generation.Load() != generation {
 		return
 	}
